@@ -120,6 +120,92 @@ Proof.
   lia.
 Qed.
 
+(* The property restricts the SEND instant to the era.  A packet sent in its last 64 seconds can arrive
+   after its end: then the seconds of the receive time no longer fit 32 bits, toNtpTime wraps modulo 2^64 -
+   and the 64-second arithmetic of Estimate, which only looks at differences, is not disturbed. *)
+Lemma to_ntp_wrapped u : 0 <= u -> 4294967296 <= u / 1000000000 + ntp_epoch_offset < 8589934592 ->
+  to_ntp u = (u / 1000000000 + ntp_epoch_offset) * 4294967296
+             + (u mod 1000000000 * 4294967296) / 1000000000 - 18446744073709551616.
+Proof.
+  intros H0 H1. unfold to_ntp, ntp_epoch_offset in *. cbv zeta.
+  rewrite !shiftl_mul by lia. change (2 ^ 32) with 4294967296.
+  rewrite (u64_small u) by lia.
+  rewrite (u64_small (u / 1000000000 + 2208988800)) by lia.
+  rewrite (u64_small (u mod 1000000000 * 4294967296)) by lia.
+  assert (Hw : u64 ((u / 1000000000 + 2208988800) * 4294967296)
+               = (u / 1000000000 + 2208988800) * 4294967296 - 18446744073709551616).
+  { unfold u64. lia. }
+  rewrite Hw.
+  rewrite (lor_add_small _ _ 32) by (change (2 ^ 32) with 4294967296; lia). lia.
+Qed.
+
+Theorem estimate_recovers_late send delay :
+  in_era send -> ~ in_era (send + delay) -> 0 <= delay < max_delay ->
+  0 <= send - estimate (new_abs_send_time send) (send + delay) <= 3816.
+Proof.
+  intros Hs Hnr Hd. unfold estimate, new_abs_send_time, max_delay in *. cbv zeta.
+  pose proof (to_ntp_range send Hs) as HNr.
+  pose proof (to_ntp_closed send Hs) as HN.
+  destruct Hs as [Hs0 Hs1]. unfold in_era, ntp_epoch_offset in *.
+  assert (Hlate : 4294967296 <= (send + delay) / 1000000000 + 2208988800 < 8589934592) by lia.
+  pose proof (to_ntp_wrapped (send + delay) ltac:(lia) Hlate) as HR. unfold ntp_epoch_offset in HR.
+  set (N := to_ntp send) in *. set (R := to_ntp (send + delay)) in *.
+  assert (HN' : N = 2208988800 * 4294967296 + send * 4294967296 / 1000000000) by lia.
+  (* R' is the receive time without the wrap *)
+  set (R' := R + 18446744073709551616).
+  assert (HR' : R' = 2208988800 * 4294967296 + (send + delay) * 4294967296 / 1000000000) by (unfold R'; lia).
+  clear HN HR.
+  set (gN := send * 4294967296 / 1000000000) in *.
+  set (gR := (send + delay) * 4294967296 / 1000000000) in *.
+  assert (HgN : gN * 1000000000 <= send * 4294967296 < gN * 1000000000 + 1000000000) by (unfold gN; lia).
+  assert (HgR : gR * 1000000000 <= (send + delay) * 4294967296 < gR * 1000000000 + 1000000000) by (unfold gR; lia).
+  assert (HRr : 0 <= R < 274877906944) by (unfold R' in HR'; lia).
+  rewrite shiftr_div by lia. change (2 ^ 14) with 16384.
+  rewrite land_ffffff. rewrite shiftl_mul by lia. change (2 ^ 14) with 16384.
+  set (M := N / 16384 mod 16777216 * 16384).
+  assert (HM : 0 <= M < 274877906944) by (unfold M; lia).
+  rewrite (u64_small M) by lia.
+  change 18446743798831644672 with (Z.shiftl (Z.ones 26) 38).
+  rewrite land_mask_range by lia. change (2 ^ 38) with 274877906944. change (2 ^ 26) with 67108864.
+  replace (R / 274877906944 mod 67108864) with 0 by lia.
+  change (0 * 274877906944) with 0.
+  rewrite (lor_add_small 0 M 38) by (change (2 ^ 38) with 274877906944; try reflexivity; lia).
+  set (S14 := N / 16384 * 16384).
+  assert (HS14 : S14 <= N < S14 + 16384) by (unfold S14; lia).
+  assert (Hwin : 0 <= R' - S14 < 274877906944) by lia.
+  assert (HMS : S14 = N / 274877906944 * 274877906944 + M) by (unfold S14, M; lia).
+  (* the send time lies in the last 2^38 window of the era: N / 2^38 = 2^26 - 1 *)
+  assert (Htop : N / 274877906944 = 67108863) by lia.
+  assert (Hres : (if R <? 0 + M then u64 (0 + M - 274877906944) else 0 + M) = S14).
+  { case_if.
+    - unfold u64. lia.
+    - exfalso. lia. }
+  rewrite Hres.
+  rewrite to_time_closed by (unfold ntp_epoch_offset; lia). unfold ntp_epoch_offset.
+  set (T := S14 - 2208988800 * 4294967296).
+  assert (HT : gN - 16383 <= T <= gN) by (unfold T; lia).
+  assert (HT0 : 0 <= T) by (unfold T; lia).
+  replace ((S14 / 4294967296 - 2208988800) * 1000000000 + S14 mod 4294967296 * 1000000000 / 4294967296)
+    with (T * 1000000000 / 4294967296).
+  2:{ unfold T. lia. }
+  set (h := T * 1000000000 / 4294967296).
+  assert (Hh : h * 4294967296 <= T * 1000000000 < h * 4294967296 + 4294967296) by (unfold h; lia).
+  lia.
+Qed.
+
+(* ... so the receive instant needs no hypothesis of its own *)
+Theorem estimate_recovers_any send delay :
+  in_era send -> 0 <= delay < max_delay ->
+  0 <= send - estimate (new_abs_send_time send) (send + delay) <= 3816.
+Proof.
+  intros Hs Hd.
+  assert (Hdec : in_era (send + delay) \/ ~ in_era (send + delay)).
+  { unfold in_era. destruct (Z_lt_ge_dec ((send + delay) / 1000000000 + ntp_epoch_offset) 4294967296) as [H|H].
+    - left. destruct Hs. unfold max_delay in Hd. split; lia.
+    - right. intros [_ H2]. lia. }
+  destruct Hdec as [Hr|Hr]; [apply estimate_recovers|apply estimate_recovers_late]; assumption.
+Qed.
+
 (* ------------------------------------------------------------------ *)
 (* capture clock offset <-> Q32.32                                     *)
 
